@@ -107,6 +107,11 @@ pub fn run_case(rep: &mut Report, case: &Case, verbose: bool) {
     if case.master_only_last {
         b.master_only = (0..case.n_ports).map(|p| p + 1 == case.n_ports).collect();
     }
+    // some ports speak PTP 2.0: what they advertise is the same view
+    if case.seed % 4 == 1 {
+        b.minor_zero = (0..case.n_ports).map(|p| (case.seed >> (8 + p)) & 1 == 1 || p == 1).collect();
+        rep.ev("case_with_ptp_2_0_ports");
+    }
     let Ok(built) = b.build() else { return };
     let mut node = built.node;
     // what the instance advertises does not depend on whether the host's clock accepts the time
@@ -514,7 +519,7 @@ fn slave_only_takeover(rep: &mut Report, seed: u64) {
 
 pub fn run(rep: &mut Report, tier: &str, seed: u64, shard: (u32, u32), replay: Option<&str>) {
     rep.rule = "boundary clocks with 2-3 real ports: a scripted parent on port 0 whose Announce contents are redrawn at every step (all 2^6 time-properties flag combinations, utc offsets incl. i16 extremes, every timeSource octet, quality lattice, stepsRemoved 0..254), a better second master taking over, loss of all masters (grandmaster take-over) and local quality changes; after every step each master port's next Announce is decoded and compared with the shadow view; distinct = distinct cases; evaluations = cases".into();
-    rep.require(&["announce_checked", "announce_checked_grandmaster", "announce_checked_slave", "announce_checked_grandmaster-after-takeover", "parent_selected", "parent_changed", "takeover", "quality_changed", "announce_checked_after_slave_only_instance_became_master_capable"]);
+    rep.require(&["announce_checked", "announce_checked_grandmaster", "announce_checked_slave", "announce_checked_grandmaster-after-takeover", "parent_selected", "parent_changed", "takeover", "quality_changed", "announce_checked_after_slave_only_instance_became_master_capable", "case_with_ptp_2_0_ports"]);
     if let Some(path) = replay {
         let v: serde_json::Value = serde_json::from_str(&std::fs::read_to_string(path).unwrap()).unwrap();
         if let Some(sd) = v["case"]["slave_only_takeover_seed"].as_u64() {
